@@ -2,9 +2,9 @@ SPECIFICATION Spec
 CONSTANTS
   Modern = TRUE
   Auth = FALSE
-  Rig = "raw-lib"
+  Rig = "lib-lib"
   NReq = 2
-  BigFrames = {2}
-  Faults = {}
+  BigFrames = {}
+  Faults = {"close-client", "close-server", "cancel", "drop"}
 INVARIANTS RequestsInOrder ResponsesInOrder WireOK ModesAgree AllArrive Emit
 CHECK_DEADLOCK FALSE
